@@ -53,6 +53,8 @@ def col(kind, j, r):
         return (np.array([1.5, np.nan, -2.0]) + j)[:r]
     if kind == 'G':
         return (np.array([np.nan, 0.5, 4.0]) - j)[:r]
+    if kind == 'C':
+        return (np.array([1.5 + 2j, -2.0 + 0.5j, 0.25 - 1j], dtype=np.complex128) + j)[:r]
     if kind == 'A':
         return np.array([np.nan, np.nan, np.nan])[:r]
     if kind == 'b':
@@ -95,6 +97,11 @@ def frame_cases(tier):
                   ('f', 'G', 'G', 'A'), ('O', 'O', 'F', 'i')):
         for r in ((3,) if q else (2, 3)):
             yield (kinds, r)
+    # complex columns: only in all-numeric frames of >= 2 rows (complex next to non-numeric columns and the 0/1-row shapes add nothing but the
+    # degenerate-shape and object-row classes already covered without complex numbers)
+    for kinds in (('C',), ('C', 'C'), ('C', 'f'), ('f', 'C'), ('i', 'C'), ('C', 'F'), ('C', 'f', 'C'), ('C', 'f', 'C', 'i'), ('C', 'C', 'f', 'f')):
+        for r in (2, 3):
+            yield (kinds, r)
 
 
 def series_cases(tier):
@@ -110,7 +117,7 @@ def series_cases(tier):
 def is_missing(x):
     if x is None:
         return True
-    if isinstance(x, (float, np.floating)):
+    if isinstance(x, (float, np.floating, complex, np.complexfloating)):
         return x != x
     if isinstance(x, (np.datetime64, np.timedelta64)):
         return bool(np.isnat(x))
@@ -118,7 +125,7 @@ def is_missing(x):
 
 
 def _numlike(x):
-    return isinstance(x, (bool, np.bool_, int, float, np.integer, np.floating)) and not is_missing(x)
+    return isinstance(x, (bool, np.bool_, int, float, complex, np.integer, np.floating, np.complexfloating)) and not is_missing(x)
 
 
 def veq(a, b):
@@ -127,7 +134,7 @@ def veq(a, b):
     if ma or mb:
         return ma and mb
     if _numlike(a) and _numlike(b):
-        fa, fb = float(a), float(b)
+        fa, fb = complex(a), complex(b)
         return fa == fb or abs(fa - fb) <= 1e-9 * max(abs(fa), abs(fb))
     if _numlike(a) != _numlike(b):
         return False
@@ -145,7 +152,9 @@ def vclass(v):
         return 'empty'
     miss = any(is_missing(x) for x in v)
     k = v.dtype.kind
-    if k in 'biuf':
+    if k == 'c':
+        base = 'complex'
+    elif k in 'biuf':
         base = 'bool' if k == 'b' else 'num'
     elif k == 'M':
         base = 'date'
@@ -169,7 +178,7 @@ def row_vector(cols, i):
     cells = [c[i] for c in cols]
     if len(dts) == 1:
         return np.array(cells, dtype=cols[0].dtype)
-    if all(c.dtype.kind in 'iuf' for c in cols):
+    if all(c.dtype.kind in 'iufc' for c in cols):
         return np.array(cells, dtype=np.result_type(*[c.dtype for c in cols]))
     a = np.empty(len(cells), dtype=object)
     for k, x in enumerate(cells):
@@ -207,7 +216,13 @@ def _nm(v):
     return [x for x in v if not is_missing(x)]
 
 
+def _is_complex(x):
+    return isinstance(x, (complex, np.complexfloating))
+
+
 def _as_float(cells):
+    if any(_is_complex(x) for x in cells):
+        return np.array([complex(x) for x in cells], dtype=np.complex128)
     return np.array([float(x) for x in cells], dtype=np.float64)
 
 
@@ -218,9 +233,11 @@ def oracle(op, v, skipna, ddof=0):
     if has_missing and not skipna:
         return MISSING
     cells = _nm(v)
-    numeric = k in 'biuf' or (k == 'O' and all(_numlike(x) for x in cells))
+    numeric = k in 'biufc' or (k == 'O' and all(_numlike(x) for x in cells))
     allstr = k == 'U' or (k == 'O' and len(cells) > 0 and all(isinstance(x, str) for x in cells))
-    if len(cells) == 0 and k not in 'biuf':
+    if k == 'c' and op not in ('sum', 'prod', 'mean', 'median', 'all', 'any'):
+        return UNSPEC      # complex numbers are not ordered and their spread is not pinned down by the property: only sum/prod/mean/median/all/any are judged
+    if len(cells) == 0 and k not in 'biufc':
         return UNSPEC if k in 'OU' else (UNDEF if op not in ('min', 'max') else UNSPEC)   # nothing left to reduce in an untyped / non-numeric vector
     with warnings.catch_warnings():
         warnings.simplefilter('ignore')
@@ -278,6 +295,8 @@ def oracle_arg(op, v, skipna):
     has_missing = any(is_missing(x) for x in v)
     cells = _nm(v)
     numeric = k in 'biuf' or (k == 'O' and all(_numlike(x) for x in cells))
+    if k == 'c' or any(_is_complex(x) for x in cells):
+        return UNSPEC
     if not numeric and k != 'M' and not (k == 'U' or all(isinstance(x, str) for x in cells)):
         return UNDEF
     if len(v) == 0:
@@ -299,9 +318,10 @@ def oracle_cum(op, v, skipna):
     """cumsum / cumprod: -> ('val', [cells]) with MISSING markers, or UNDEF"""
     k = v.dtype.kind
     cells = _nm(v)
-    numeric = k in 'biuf' or (k == 'O' and all(_numlike(x) for x in cells))
+    numeric = k in 'biufc' or (k == 'O' and all(_numlike(x) for x in cells))
     if not numeric:
         return UNDEF
+    float = complex if (k == 'c' or any(_is_complex(x) for x in cells)) else __builtins__['float'] if isinstance(__builtins__, dict) else __builtins__.float
     out, acc, dead, seen = [], (0 if op == 'cumsum' else 1), False, False
     for x in v:
         if is_missing(x):
@@ -405,6 +425,9 @@ def eval_frame_case(rep, case, tier='quick'):
     for (op, kw), axis, skipna in itertools.product(ops, (0, 1), (True, False)):
         # 0-sized shapes fail alike for every operation: key them by shape; one-row frames run the per-operation size_one_unity shortcut
         fam = shape if shape in ('zero-columns', 'zero-rows') else (f'one-row:{FAMILY[op]}' if shape else FAMILY[op])
+        if 'C' in kinds:
+            # frames holding a complex column are a class of their own: all-numeric columns (complex row dtype) or mixed with non-numeric columns (object row dtype)
+            fam += '+complex-column:' + ('numeric-frame' if all(c.dtype.kind in 'biufc' for c in cols) else 'mixed-frame')
         tag = f'{op}' + (f'[ddof={kw["ddof"]}]' if 'ddof' in kw else '')
         rp = dict(base_rp, op=op, kw=kw, axis=axis, skipna=skipna)
         outs = []
